@@ -459,7 +459,13 @@ class BCReplay:
         D, tax, side = r['D'], r['tax'], r['side']
         ta, tb = float(r['ta']), float(r['tb'])
         kvs = list(sp['kvs'])
-        kvs[tax] = bspline.make_knots(sp['deg'][tax], ta, tb, sp['shape'][tax] - sp['deg'][tax])
+        pt, nsp = sp['deg'][tax], sp['shape'][tax] - sp['deg'][tax]
+        if r.get('graded'):
+            brk = [ta + (tb - ta) * (k * (k + 1)) / (nsp * (nsp + 1)) for k in range(nsp + 1)]
+            brk[-1] = tb
+            kvs[tax] = bspline.KnotVector(np.array([ta] * pt + brk + [tb] * pt, dtype=float), pt)
+        else:
+            kvs[tax] = bspline.make_knots(pt, ta, tb, nsp)
         kvs = tuple(kvs)
         fshape = [n for a, n in enumerate(sp['shape']) if a != tax]
         fknots = [k for a, k in enumerate(sp['knots']) if a != tax]
@@ -479,8 +485,8 @@ class BCReplay:
             geo = None
             g0 = lambda *X: S0([X[Df - 1 - a] for a in range(Df)])      # parametric: xyz order -> axis order
             g1 = lambda *X: S1([X[Df - 1 - a] for a in range(Df)])
-        case = {k: r[k] for k in ('D', 'shape', 'deg', 'tax', 'side', 'ta', 'tb', 'physical')}
-        cls = 'time-interval=[%d,%d] side=%d' % (r['ta'], r['tb'], side)
+        case = {k: r[k] for k in ('D', 'shape', 'deg', 'tax', 'side', 'ta', 'tb', 'physical', 'graded')}
+        cls = 'time-interval=[%d,%d] side=%d%s' % (r['ta'], r['tb'], side, ' graded-time-knots' if r.get('graded') else '')
         exp = {e['dof']: [float(frac(e['val']))] for e in r['entries']}
         self._bc_call('compute_initial_condition_01', cls, case,
                       lambda: assemble.compute_initial_condition_01(kvs, geo, (tax, side), g0, g1,
